@@ -2,7 +2,7 @@
 from __future__ import annotations
 import ast
 from typing import List, Optional, Dict, Set, Tuple
-from ..model import Model, FuncInfo, ClassInfo, own_nodes, norm_stmt, AnalysisError, AnchorError, enclosing_stmt, parent, ancestors
+from ..model import path_conditions, Model, FuncInfo, ClassInfo, own_nodes, norm_stmt, AnalysisError, AnchorError, enclosing_stmt, parent, ancestors
 from ..report import RuleResult
 from ..cfg import CFG, Node
 from ..flow import function_defs, names_loaded
@@ -51,8 +51,56 @@ def rules(model: Model, tier: str) -> List[RuleResult]:
     linopalg.hermitian_flags(model, HF)
     linopalg.no_inplace_in_products(model, IP)
     linopalg.scalar_validation(model, SC)
+    Q = RuleResult(PROP, "C11-Q", "public capability properties report the per-class flags resolved by __new__ (inherited implementations included); .H wraps every "
+                   "non-Hermitian, non-dense operator in AdjointLinearOperator (capability check + adjoint-trick fall-back)", min_instances=6)
+    _capability_properties(model, Q)
     rules.extra_coverage = dict(shape_configurations=ncfg)
-    return [F, C, V, H, P, A, SH, ST, HF, IP, SC]
+    return [F, C, V, H, P, A, SH, ST, HF, IP, SC, Q]
+
+
+def _capability_properties(model: Model, Q: RuleResult):
+    base = model.cls(LINOP, "LinearOperator")
+    new = base.methods.get("__new__")
+    set_in_new = set()
+    if new is not None:
+        for n in ast.walk(new.node):
+            if isinstance(n, ast.Attribute) and isinstance(n.ctx, ast.Store) and n.attr.startswith("_is_") and n.attr.endswith("_implemented"):
+                set_in_new.add(n.attr)
+    for priv, pub in OPTIONAL.items():
+        prop = base.methods.get("is_%s_implemented" % pub)
+        flag = "_is_%s_implemented" % pub
+        if prop is None:
+            raise AnchorError("LinearOperator.is_%s_implemented vanished" % pub)
+        rets = [r for r in own_nodes(prop.node) if isinstance(r, ast.Return)]
+        ok = len(rets) == 1 and isinstance(rets[0].value, ast.Attribute) and isinstance(rets[0].value.value, ast.Name) and rets[0].value.value.id == prop.params()[0] \
+            and rets[0].value.attr == flag and flag in set_in_new
+        if ok:
+            Q.ok(prop.fq, "is_%s_implemented returns self.%s, the flag __new__ resolves through the MRO" % (pub, flag))
+        else:
+            Q.bad(prop, rets[0] if rets else prop.node, "is_%s_implemented must report self.%s (set by __new__ for the instance's class, inherited implementations included); "
+                  "any other answer makes AdjointLinearOperator / the fall-backs accept or refuse the wrong operators" % (pub, flag))
+    hp = base.methods.get("H")
+    if hp is None:
+        raise AnchorError("LinearOperator.H vanished")
+    me = hp.params()[0]
+    for r in [r for r in own_nodes(hp.node) if isinstance(r, ast.Return)]:
+        v = r.value
+        txt = ast.unparse(v) if v is not None else "None"
+        conds = path_conditions(r)
+        if isinstance(v, ast.Name) and v.id == me:
+            good = ("%s._is_hermitian" % me, True) in conds or ("%s.is_hermitian" % me, True) in conds
+            why = "returning the operator itself is right only under its Hermitian flag"
+        elif isinstance(v, ast.Call) and ast.unparse(v.func) == "AdjointLinearOperator" and len(v.args) == 1 and ast.unparse(v.args[0]) == me:
+            good, why = True, ""
+        elif isinstance(v, ast.Call) and ast.unparse(v.func).endswith("LinearOperator.m") and any("isinstance(%s, MatrixLinearOperator)" % me == c for c, t in conds if t):
+            good, why = True, ""
+        else:
+            good, why = False, "the adjoint of a general operator must be AdjointLinearOperator(self): it is the only class whose products fall back to the adjoint trick when an operand has no _rmv"
+        if good:
+            Q.ok(hp.fq, "H: `return %s` under %s" % (txt[:60], [c for c, t in conds if t] or "no condition"))
+        else:
+            Q.bad(hp, r, "LinearOperator.H returns `%s`: %s" % (txt[:80], why))
+
 
 
 # ------------------------------------------------------------------------------------------------- F
